@@ -187,6 +187,8 @@ def run_traces(ctx, n_lin, n_exp):
         # canary: corrupt one logged result of an accepted event; TLC must reject exactly it
         good = [e for e in slim if e['id'] not in badids and e['m'] > 5]
         if not good:
+            if ctx.has_violations():
+                continue
             raise Machinery('no event available for the canary')
         c = dict(good[len(good) // 2])
         c['m'] = c['m'] * 3 + 7 + 100 * c['S']
